@@ -117,12 +117,36 @@ def import_closure(module):
     return sorted(seen)
 
 
+def prop_modules(prop):
+    """OQ.Props.Cxx and any OQ.Props.Cxx_* companion modules"""
+    d = os.path.join(LEAN, "OQ", "Props")
+    mods = []
+    for fn in sorted(os.listdir(d)):
+        if fn == f"{prop}.lean" or (fn.startswith(f"{prop}_") and fn.endswith(".lean")):
+            mods.append("OQ.Props." + fn[:-5])
+    return mods
+
+
 def theorem_names(prop):
-    p = os.path.join(LEAN, "OQ", "Props", f"{prop}.lean")
-    src = strip_comments(open(p).read())
-    ns = re.search(r"^namespace\s+(\S+)", src, flags=re.M)
-    prefix = ns.group(1) + "." if ns else ""
-    return [prefix + n for n in re.findall(r"^theorem\s+([\w'.]+)", src, flags=re.M)]
+    out = []
+    for mod in prop_modules(prop):
+        p = os.path.join(LEAN, *mod.split(".")) + ".lean"
+        src = strip_comments(open(p).read())
+        # namespaces are tracked line by line so that names are fully qualified
+        stack = []
+        for line in src.split("\n"):
+            m = re.match(r"^namespace\s+(\S+)", line)
+            if m:
+                stack.append(m.group(1))
+                continue
+            m = re.match(r"^end\s+(\S+)", line)
+            if m and stack and stack[-1] == m.group(1):
+                stack.pop()
+                continue
+            m = re.match(r"^theorem\s+([\w'.]+)", line)
+            if m:
+                out.append(".".join(stack + [m.group(1)]))
+    return out
 
 
 def lake_build(targets, timeout=3000):
@@ -168,14 +192,16 @@ def audit(prop, force=False):
         except Exception:
             pass
     forbidden = []
-    for m in import_closure(f"OQ.Props.{prop}"):
+    closure = sorted({m for pm in prop_modules(prop) for m in import_closure(pm)})
+    for m in closure:
         p = os.path.join(LEAN, *m.split(".")) + ".lean"
         for hit in FORBIDDEN.finditer(strip_comments(open(p).read())):
             forbidden.append({"module": m, "token": hit.group(0).strip()})
     os.makedirs(os.path.join(LEAN, ".lake", "audit"), exist_ok=True)
     af = os.path.join(LEAN, ".lake", "audit", f"{prop}.lean")
     with open(af, "w") as f:
-        f.write(f"import OQ.Props.{prop}\n")
+        for pm in prop_modules(prop):
+            f.write(f"import {pm}\n")
         for n in names:
             f.write(f"#print axioms {n}\n")
     lock = _lock()
@@ -205,7 +231,7 @@ def audit(prop, force=False):
 
 
 def leanchecker(prop, timeout=1500):
-    mods = import_closure(f"OQ.Props.{prop}")
+    mods = sorted({m for pm in prop_modules(prop) for m in import_closure(pm)})
     lock = _lock()
     try:
         p = subprocess.run(["lake", "env", "leanchecker"] + mods, cwd=LEAN, capture_output=True, text=True,
